@@ -39,24 +39,24 @@ type Clause struct {
 }
 
 type FuncContract struct {
-	Key      string
-	Pkg      string
-	Requires []Clause
-	Assumes  []Clause
-	Tracks   []Clause // state predicates re-established at every join (proved per incoming edge, then carried over by congruence)
-	Ensures  []Clause
-	Modifies []string
-	HasMod   bool
-	Lets     []Clause // Label = name
-	Loops    map[int][]Clause
+	Key       string
+	Pkg       string
+	Requires  []Clause
+	Assumes   []Clause
+	Tracks    []Clause // state predicates re-established at every join (proved per incoming edge, then carried over by congruence)
+	Ensures   []Clause
+	Modifies  []string
+	HasMod    bool
+	Lets      []Clause // Label = name
+	Loops     map[int][]Clause
 	LoopExits map[int][]Clause // loop N exit: asserted on every edge that leaves the loop
-	Foreach  []Clause // templates with $src / $dst, instantiated for loops of the append-each idiom
-	Trusted  bool
-	File     string
-	Line     int
-	Attrs    map[string]string
-	Cases    map[string]*FuncContract // per-case sections (`case T`) for the generated type switches
-	parent   *FuncContract
+	Foreach   []Clause         // templates with $src / $dst, instantiated for loops of the append-each idiom
+	Trusted   bool
+	File      string
+	Line      int
+	Attrs     map[string]string
+	Cases     map[string]*FuncContract // per-case sections (`case T`) for the generated type switches
+	parent    *FuncContract
 }
 
 type PureFunc struct {
